@@ -47,6 +47,8 @@ func newDecls() *Decls {
 		"(declare-fun tagof (Iface) Int)",
 		"(assert (= (tagof nil_iface) 0))",
 		"(declare-datatypes ((Slice 0)) (((mk_slice (sl_base Ref) (sl_off Int) (sl_len Int) (sl_cap Int)))))",
+		// element index of a slice, wrapped in a function symbol so that quantifiers over indices
+		// have arithmetic-free patterns
 		"(declare-fun concat_s (Str Str) Str)",
 		"(declare-fun sub_s (Str Int Int) Str)",
 		"(declare-fun str_less (Str Str) Bool)",
@@ -193,6 +195,13 @@ func (d *Decls) heapPtr(elem types.Type) (name, sort string) {
 }
 func (d *Decls) heapElem(elem types.Type) (name, sort string) {
 	return "HE_" + d.typeKey(elem), "(Array Ref (Array Int " + d.sortOf(elem) + "))"
+}
+
+// slIdx: element index of a slice, wrapped in a function symbol so that quantifiers over indices get
+// arithmetic-free patterns; declared (with its defining axiom) only in queries that use it.
+func (d *Decls) slIdx(s, i string) string {
+	d.add("sl_idx", "(declare-fun sl_idx (Slice Int) Int)\n(assert (forall ((s Slice) (i Int)) (! (= (sl_idx s i) (+ (sl_off s) i)) :pattern ((sl_idx s i)))))")
+	return "(sl_idx " + s + " " + i + ")"
 }
 
 func (d *Decls) strLit(s string) string {
